@@ -18,7 +18,7 @@ var c08Exprs = []string{
 	".a[0] < .a[1]", ".a[0] >= .a[1]", ".a == .b", ".a != .b", ".a[0] == .missing", ".a and .b", ".missing or .b", ".a | not", ".missing // 1", ".a // .b", ".a[0] // .nothere",
 	// functions
 	"length", ".a | length", "keys", ".a | keys", "has(\"a\")", ".a | has(5)", "has(\"nokey\")", ".a | sort", ".a | sort_by(.)", ".a | reverse", ".a | .[0:2] | unique", ".a | .[0:2] | unique_by(.)",
-	".a | group_by(.)", ".a | flatten", ".a | flatten(1)", ".a | map(. )", ".a | map(select(. == 1))", ".a | filter(. == 1)", ".a | any", ".a | all", ".a | any_c(. == 1)", ".a | all_c(. == 1)",
+	".a | group_by(.)", ".a | flatten", ".a | flatten(1)", ".d | flatten", ".d | flatten(1)", ".d | flatten(2)", ".d | flatten(3)", "[.d] | flatten", ".d | map(flatten)", ".d | .. | select(kind == \"seq\") | length", ".d[1] | flatten", ".d | sort_by(flatten | .[0])", ".a | map(. )", ".a | map(select(. == 1))", ".a | filter(. == 1)", ".a | any", ".a | all", ".a | any_c(. == 1)", ".a | all_c(. == 1)",
 	".a | contains([1])", ".b | contains({\"c\": 1})", ".s | contains(\"t\")", ".a | join(\",\")", ".s | split(\"t\")", ".a | to_entries", ".b | to_entries", ".b | to_entries | from_entries",
 	".b | with_entries(.)", "pick([\"a\"])", "pick([\"nokey\"])", "omit([\"a\"])", ".a | pick([0])", ".a | min", ".a | max", ".a | .[] as $i ireduce (0; . + $i)", ".a[0] as $v | $v + 1",
 	".b as $i ireduce ({}; . * {\"k\": $i.nokey})", "(.b, .b) as $i ireduce ({}; . * {\"k\": $i.nokey})", ".b as $i ireduce ({}; . + {\"k\": $i.nokey})", ".b as $i ireduce ([]; . + [$i.nokey])", ".b as $i ireduce (0; $i.nokey // .)", ".a[] as $i ireduce ({}; . * {\"k\": $i})", ".b as $i ireduce ({}; {\"k\": $i.nokey} * .)",
@@ -46,7 +46,9 @@ func c08Doc(x0, x1, x2, x3 string) *CandidateNode {
 	s := vStr("str")
 	s.Style = yaml.DoubleQuotedStyle
 	s.FootComment = "fs"
-	root := vMap(vStr("a"), a, vStr("b"), b, vStr("s"), s)
+	// a sequence nested four levels deep (operators that recurse into children: flatten, .., deep merges)
+	deep := vSeq(vSeq(vSeq(vInt(x0))), vSeq(vInt(x1), vSeq(vInt(x2), vSeq(vInt(x3)))))
+	root := vMap(vStr("a"), a, vStr("b"), b, vStr("s"), s, vStr("d"), deep)
 	root.HeadComment = "hr"
 	return vDoc(root)
 }
